@@ -219,7 +219,7 @@ def c15():
     return p
 
 
-SCOPE_SEQS = ["r", "l", "a", "lr", "la", "ll", "elr", "lelr", "elxr", "lelxr", "lelxa", "elxelr", "lelar"]
+SCOPE_SEQS = ["r", "l", "a", "lr", "la", "ll", "elr", "lelr", "elxr", "lelxr", "lelxa", "elxelr", "lelar", "elxer", "elxea"]
 # measured on the pinned tree: out of memory at the 12 GB cap (two global definitions in one sequence, or three lets)
 SCOPE_DO_NOT_FIT = {("la", "top"), ("ll", "top"), ("lelr", "top"), ("lelxr", "top"), ("lelxa", "local"), ("lelxa", "top"),
                     ("lelar", "local"), ("lelar", "top"), ("lelar", "block")}
@@ -258,7 +258,7 @@ def c02():
 
 
 def c12():
-    return compile_prop("C12", set(), {("lr", "local"), ("lr", "top"), ("elr", "block"), ("elxr", "local"), ("lelr", "local"), ("lelxr", "block")})
+    return compile_prop("C12", set(), {("lr", "local"), ("lr", "top"), ("elr", "block"), ("elxr", "local"), ("elxer", "local"), ("elxea", "top")})
 
 
 def c07():
